@@ -1,27 +1,38 @@
 import Mochi.Driver.Util
 import Mochi.Driver.Varint
+import Mochi.Driver.Topics
 open Mochi.Driver
+
+structure DState where
+  topics : TState := {}
 
 /-- input line: `op args…<TAB>implementation output`;
     answer line: `model output<TAB>spec verdict<TAB>signature`; unknown op => `bad-op` -/
-def answer (line : String) : String :=
+def answer (st : DState) (line : String) : DState × String :=
   let (opPart, impl) := match line.splitOn "\t" with
     | [a, b] => (a, b)
     | a :: _ => (a, "")
     | [] => ("", "")
   let ws := words opPart
-  let r := (varintOp impl ws)
-  match r with
-  | some (m, s, g) => m ++ "\t" ++ s ++ "\t" ++ g
-  | none => "bad-op"
+  let fmt (r : String × String × String) : String := r.1 ++ "\t" ++ r.2.1 ++ "\t" ++ r.2.2
+  match ws with
+  | ["reset"] => ({}, "-\tok\t-")
+  | _ =>
+    match varintOp impl ws with
+    | some r => (st, fmt r)
+    | none =>
+      match topicsOp st.topics impl ws with
+      | some (t', r) => ({ st with topics := t' }, fmt r)
+      | none => (st, "bad-op")
 
-partial def loop (h : IO.FS.Stream) (out : IO.FS.Stream) : IO Unit := do
+partial def loop (h : IO.FS.Stream) (out : IO.FS.Stream) (st : DState) : IO Unit := do
   let line ← h.getLine
   if line.isEmpty then return ()
-  out.putStrLn (answer ((line.dropEndWhile (fun c => c == '\n' || c == '\r')).toString))
-  loop h out
+  let (st', a) := answer st ((line.dropEndWhile (fun c => c == '\n' || c == '\r')).toString)
+  out.putStrLn a
+  loop h out st'
 
 def main : IO Unit := do
   let out ← IO.getStdout
-  loop (← IO.getStdin) out
+  loop (← IO.getStdin) out {}
   out.flush
